@@ -1067,6 +1067,9 @@ class Columns(Widget, WidgetContainerMixin, WidgetContainerListContentsMixin):
         if best is None:
             return False
         i, x, end, w = best
+        if len(size_args[i]) < 2 and isinstance(row, int) and row >= w.pack(size_args[i], True)[1]:
+            # flow or fixed column shorter than the others: the row is below the widget
+            return False
         if hasattr(w, "move_cursor_to_coords"):
             if isinstance(col, int):
                 move_x = min(max(0, col - x), end - x - 1)
